@@ -19,6 +19,8 @@ import (
 	"fmt"
 	"io"
 	"log"
+	"os"
+	"runtime/debug"
 	"strings"
 	"time"
 
@@ -235,6 +237,7 @@ func runRd(r *rep.Report, rng *prng.R) {
 		maxReads = rng.Range(1, maxReads)
 	}
 	buf := make([]byte, 0)
+	panicked := ""  // Read panicked inside the library: the case ends there
 	desync := false // the reader's offset no longer equals the Readdir's (after an error that consumed bytes)
 	for nreads < maxReads && empties < 2 {
 		pol := policy
@@ -267,9 +270,16 @@ func runRd(r *rep.Report, rng *prng.R) {
 					bad = int64(rng.U64() >> 1)
 				}
 			}
-			n, err := rd.Read(ctx, buf[:count], bad)
+			var n int
+			var err error
+			pt := guarded(func() { n, err = rd.Read(ctx, buf[:count], bad) })
 			op := sx.L(sx.Sym("x"), sx.I(int64(count)), sx.I(bad))
 			ops = append(ops, op)
+			if pt != "" {
+				panicked = pt
+				obs = append(obs, sx.Sym("panic"))
+				break
+			}
 			switch {
 			case err == p9p.ErrBadoffset && n == 0:
 				obs = append(obs, sx.Sym("bad"))
@@ -285,9 +295,16 @@ func runRd(r *rep.Report, rng *prng.R) {
 			continue
 		}
 		p := buf[:count]
-		n, err := rd.Read(ctx, p, off)
+		var n int
+		var err error
+		pt := guarded(func() { n, err = rd.Read(ctx, p, off) })
 		nreads++
 		ops = append(ops, sx.L(sx.Sym("r"), sx.I(int64(count))))
+		if pt != "" {
+			panicked = pt
+			obs = append(obs, sx.Sym("panic"))
+			break
+		}
 		chunk := append([]byte{}, p[:n]...)
 		switch {
 		case err == p9p.ErrBadoffset && n == 0:
@@ -335,6 +352,12 @@ func runRd(r *rep.Report, rng *prng.R) {
 		}
 	}
 	c := sx.L(sx.Sym("rd"), sx.Sym(kind), l.entriesSexp(), l.batchesSexp(), sx.List(ops))
+	if panicked != "" {
+		nPanics++
+		r.Fail("Readdir.Read.panic", fmt.Sprintf("read %d of the sequence panicked inside the library: %s", len(ops), strings.SplitN(panicked, "\n", 2)[0]), c, map[string]interface{}{"stack": panicked})
+		r.Case(c, sx.List(obs), "rd:"+kind+":panic", true)
+		return
+	}
 	if premise {
 		if (sawEmptyAt >= 0 || nreads > l.nlisted) && idx != l.nlisted {
 			r.Fail("Readdir.Read.stream", fmt.Sprintf("after %d reads (first empty reply at read %d) only %d of %d entries were delivered", nreads, sawEmptyAt, idx, l.nlisted), c, nil)
@@ -491,15 +514,47 @@ func runCl(r *rep.Report, rng *prng.R) {
 	}
 	c := sx.L(sx.Sym("cl"), sx.I(int64(iounit)), l.entriesSexp(), l.batchesSexp())
 	fs := p9p.CFileSys(s)
-	root, err := fs.Attach(ctx, "u", "", nil)
-	if err != nil {
-		panic(err)
+	var got []p9p.Dir
+	var lerr error
+	var ended bool
+	setup, pt := "", ""
+	fin := make(chan struct{})
+	go func() {
+		defer close(fin)
+		pt = guarded(func() {
+			root, err := fs.Attach(ctx, "u", "", nil)
+			if err != nil || isNilEnt(root) {
+				setup = fmt.Sprintf("Attach: entry %v, error %v", root, err)
+				return
+			}
+			next, err := root.OpenDir(ctx)
+			if err != nil || next == nil {
+				setup = fmt.Sprintf("OpenDir on the attached directory: iterator nil=%v, error %v", next == nil, err)
+				return
+			}
+			got, lerr, ended = drain(ctx, next, len(l.dirs)+2)
+		})
+	}()
+	if w := watch(fin, 200*time.Second); w != "" {
+		// the iterator neither returns nor fails (200 s for milliseconds of work), or allocates without
+		// end: nothing more can be run in this process
+		r.Fail("client.OpenDir."+w, fmt.Sprintf("iounit %d: listing a %d-entry directory did not come back (%s)", iounit, l.nlisted, w), c, nil)
+		r.Case(c, sx.L(sx.Sym("hang")), "cl:"+w, true)
+		r.Extra["stopped_by"] = "client.OpenDir." + w
+		r.Close()
+		os.Exit(0)
 	}
-	next, err := root.OpenDir(ctx)
-	if err != nil {
-		panic(err)
+	if pt != "" {
+		nPanics++
+		r.Fail("client.OpenDir.panic", fmt.Sprintf("iounit %d: listing panicked inside the library: %s", iounit, strings.SplitN(pt, "\n", 2)[0]), c, map[string]interface{}{"stack": pt})
+		r.Case(c, sx.L(sx.Sym("panic")), "cl:panic", true)
+		return
 	}
-	got, lerr, ended := drain(ctx, next, len(l.dirs)+2)
+	if setup != "" {
+		r.Fail("client.OpenDir.setup", setup, c, nil)
+		r.Case(c, sx.L(sx.Sym("setup-failed")), "cl:setup-failed", true)
+		return
+	}
 	br := "cl"
 	if !l.clean {
 		br += ":iter-error"
@@ -593,6 +648,15 @@ func runE2E(r *rep.Report, rng *prng.R) {
 		go func() { served <- p9p.ServeConn(ctx, sc, p9p.SSession(p9p.SFileSys(&scriptFS{l}))) }()
 		done := make(chan outcome, 1)
 		go func() {
+			defer func() {
+				if x := recover(); x != nil {
+					st := string(debug.Stack())
+					if !implPanic(st) {
+						panic(x)
+					}
+					done <- outcome{stage: "panic", err: fmt.Errorf("%v", x)}
+				}
+			}()
 			sess, err := p9p.CSession(ctx, cc)
 			if err != nil {
 				done <- outcome{stage: "version", err: err}
@@ -606,8 +670,8 @@ func runE2E(r *rep.Report, rng *prng.R) {
 				return
 			}
 			next, err := root.OpenDir(ctx)
-			if err != nil {
-				done <- outcome{stage: "opendir", err: err, msize: m}
+			if err != nil || next == nil {
+				done <- outcome{stage: "opendir", err: fmt.Errorf("iterator nil=%v, error %v", next == nil, err), msize: m}
 				return
 			}
 			got, lerr, ended := drain(ctx, next, len(l.dirs)+2)
@@ -676,6 +740,8 @@ func runE2E(r *rep.Report, rng *prng.R) {
 	r.Case(c, obsList(got, lerr, ended), br, len(l.dirs) > 0)
 }
 
+var nPanics = 0
+
 func main() {
 	r := rep.Open()
 	defer r.Close()
@@ -689,7 +755,14 @@ func main() {
 	for i := 0; i < ncl; i++ {
 		runCl(r, rng.Fork())
 	}
+	if nPanics > 0 {
+		// the library panicked in-process above (recorded with the cases); the same fault on the server's
+		// handler goroutine of the end-to-end family could not be recovered and would take these records along
+		r.Extra["e2e_skipped_after_panics"] = nPanics
+		ne2e = 0
+	}
 	for i := 0; i < ne2e; i++ {
 		runE2E(r, rng.Fork())
 	}
+	r.Extra["implementation_panics"] = nPanics
 }
